@@ -31,12 +31,12 @@ Fixpoint pos_digits_fuel (fuel : nat) (n : N) (acc : bytes) : bytes :=
     let q := N.div n 10 in
     if N.eqb q 0 then d :: acc else pos_digits_fuel f q (d :: acc)
   end.
-Definition N_dec (n : N) : bytes := pos_digits_fuel (S (N.to_nat (N.log2 n))) n [].
-Definition Z_dec (z : Z) : bytes :=
+Definition dec_of_N (n : N) : bytes := pos_digits_fuel (S (N.to_nat (N.log2 n))) n [].
+Definition dec_of_Z (z : Z) : bytes :=
   match z with
   | Z0 => b "0"
-  | Zpos p => N_dec (Npos p)
-  | Zneg p => "-"%char :: N_dec (Npos p)
+  | Zpos p => dec_of_N (Npos p)
+  | Zneg p => "-"%char :: dec_of_N (Npos p)
   end.
 
 Definition fl_text (f : fl) : bytes :=
